@@ -1,6 +1,20 @@
 // Boolean-operation driver.  One case per line:
 //   BOOL ct fr pc rs tree <pathsS> <pathsO> <pathsC>
 //     -> "ok|fail <closed paths> <open paths>"  and, when tree=1,  " T <n> (depth isHole nChildren <path>)*" in preorder
+//   OPENINV ct fr pc rs <pathsS> <pathsO> <pathsC>
+//     runs the sweep step by step (the statements of ClipperBase::ExecuteInternal, private access) and looks at the active edge
+//     list after every step; then runs the public Execute on a second object and compares the two solutions.
+//     -> "inv <probes> <open_hot> <front_viol> <shared_end_top> <lm_both> <lb_horz_right> <lb_horz_left> <rb_horz> <same> <ok>"
+//        probes          number of times the active edge list was examined
+//        open_hot        hot open-path edges seen
+//        front_viol      of those: the edge is the front edge of its outrec although it descends the input path (wind_dx < 0), or the
+//                        back edge although it ascends, or neither (AddLocalMaxPoly's IsFront(e1) == IsFront(e2) needs one of these)
+//        shared_end_top  pairs of active edges whose vertex_top is the same OpenStart/OpenEnd vertex (AddLocalMaxPoly's IsOpenEnd
+//                        branches need such a pair)
+//        lm_both         local minima with two bounds; lb_horz_right/left: the descending (left) bound starts with a horizontal heading
+//                        right/left; rb_horz: the ascending (right) bound starts with a horizontal (InsertLocalMinimaIntoAEL's
+//                        IsHorizontal(*right_bound) branch)
+//        same            stepwise solution == Execute's solution (paths); ok = Execute's return value
 #include "common.h"
 using namespace vfh;
 
@@ -11,6 +25,44 @@ static void put_tree(std::ostream& os, const PolyPath64& pp, int depth, int& cou
     put(body, ch->Polygon());
     put_tree(os, *ch, depth + 1, count, body);
   }
+}
+
+struct Probe { long probes = 0, open_hot = 0, front_viol = 0, shared_end_top = 0; };
+
+static void probe(Clipper64& c, Probe& pr) {
+  ++pr.probes;
+  for (Active* e = c.actives_; e; e = e->next_in_ael) {
+    if (!IsOpen(*e)) continue;
+    if (e->outrec) {
+      ++pr.open_hot;
+      bool front = (e == e->outrec->front_edge), back = (e == e->outrec->back_edge);
+      if (front == back || front != (e->wind_dx > 0)) ++pr.front_viol;
+    }
+    if (IsOpenEnd(*e->vertex_top))
+      for (Active* f = e->next_in_ael; f; f = f->next_in_ael)
+        if (f->vertex_top == e->vertex_top) ++pr.shared_end_top;
+  }
+}
+
+// the statements of ClipperBase::ExecuteInternal with a probe after every step
+static bool sweep_probed(Clipper64& c, ClipType ct, FillRule fr, Probe& pr) {
+  c.cliptype_ = ct; c.fillrule_ = fr; c.using_polytree_ = false;
+  c.Reset();
+  int64_t y;
+  if (ct == ClipType::NoClip || !c.PopScanline(y)) return true;
+  while (c.succeeded_) {
+    c.InsertLocalMinimaIntoAEL(y); probe(c, pr);
+    Active* e;
+    while (c.PopHorz(e)) { c.DoHorizontal(*e); probe(c, pr); }
+    if (c.horz_seg_list_.size() > 0) { c.ConvertHorzSegsToJoins(); c.horz_seg_list_.clear(); }
+    c.bot_y_ = y;
+    if (!c.PopScanline(y)) break;
+    c.DoIntersections(y); probe(c, pr);
+    c.DoTopOfScanbeam(y); probe(c, pr);
+    while (c.PopHorz(e)) { c.DoHorizontal(*e); probe(c, pr); }
+  }
+  if (c.succeeded_) c.ProcessHorzJoins();
+  return c.succeeded_;
 }
 
 int main() {
@@ -35,6 +87,29 @@ int main() {
         int count = 0; std::ostringstream body; put_tree(os, pt, 0, count, body);
         os << " T " << count << body.str();
       }
+    } else if (cmd == "OPENINV") {
+      int ct = t.i32(), fr = t.i32(); bool pc = t.b(), rs = t.b();
+      Paths64 s = t.paths(), o = t.paths(), c = t.paths();
+      Clipper64 clp, ref;
+      for (Clipper64* q : {&clp, &ref}) {
+        q->PreserveCollinear(pc); q->ReverseSolution(rs);
+        q->AddSubject(s); q->AddOpenSubject(o); q->AddClip(c);
+      }
+      long lm_both = 0, lb_r = 0, lb_l = 0, rb_h = 0;
+      for (const auto& lm : clp.minima_list_) {
+        const Vertex* v = lm->vertex;
+        if ((v->flags & (VertexFlags::OpenStart | VertexFlags::OpenEnd)) != VertexFlags::Empty) continue;
+        ++lm_both;
+        if (v->prev->pt.y == v->pt.y) { if (v->prev->pt.x > v->pt.x) ++lb_r; else ++lb_l; }
+        else if (v->next->pt.y == v->pt.y) ++rb_h;
+      }
+      Probe pr;
+      Paths64 closed, open, rclosed, ropen;
+      if (sweep_probed(clp, (ClipType)ct, (FillRule)fr, pr)) clp.BuildPaths64(closed, &open);
+      clp.CleanUp();
+      bool ok = ref.Execute((ClipType)ct, (FillRule)fr, rclosed, ropen);
+      os << "inv " << pr.probes << ' ' << pr.open_hot << ' ' << pr.front_viol << ' ' << pr.shared_end_top << ' ' << lm_both << ' '
+         << lb_r << ' ' << lb_l << ' ' << rb_h << ' ' << ((closed == rclosed && open == ropen) ? 1 : 0) << ' ' << (ok ? 1 : 0);
     } else { os << "EXC unknown command " << cmd; }
   });
 }
